@@ -126,6 +126,15 @@ def run(ctx, F):
     ctx.judge(okcp, "C28.commit-on-ok", "commit_pages tops the reservation up to the actual grant and commits the actual grant", expected="accounting.reserve(actual - reserved); accounting.commit(actual) on every path",
               found="commit(%s) reserve(%s)" % ([show(strip(cp.flow.arg_tree(c, 1))) for c in cc], [show(strip(cp.flow.arg_tree(c, 1))) for c in rv]), where=where(cp), key="C28.commit-on-ok|commit-pages")
 
+    # a failed growth of a discontiguous monotone space (grow_discontiguous_space returns the zero address) must not be granted:
+    # the chunk address it returned is tested for zero on every path from the growth to a return
+    ma = [f_ for q_, f_ in F.fns.items() if re.search(r"MonotonePageResource(<\w+>)? as %salloc_pages$" % re.escape(PR), q_)]
+    for f_ in ma:
+        gr = [c for c in live_calls(f_) if c.name == "grow_discontiguous_space"]
+        zs = [c for c in live_calls(f_) if c.name == "is_zero" and ("current_chunk" in show(simp(f_.flow.arg_tree(c, 0))) or "grow_discontiguous_space" in show(simp(f_.flow.arg_tree(c, 0))))]
+        okz = len(gr) == 1 and bool(zs) and f_.cfg.must_pass([z.bb for z in zs], start=gr[0].bb)
+        ctx.judge(okz, "C28.commit-on-ok", "a discontiguous monotone space examines whether its growth failed before granting pages", expected="is_zero(<chunk returned by grow_discontiguous_space>) on every path after the growth",
+                  found="grow sites=%d zero tests=%d" % (len(gr), len(zs)), where=where(f_), key="C28.commit-on-ok|monotone-grow-failure")
     # ---- reserve-resolve
     aq = F.fn("policy::space::Space::acquire")
     rs = live_calls(aq, name="reserve_pages")
